@@ -202,10 +202,68 @@ def check_week_runs(ctx, prog, sf):
                       "A B A A A A A becomes A B B B B B B" % oname, f_.loc(ln_))
 
 
+def check_period_lists_kept(ctx, prog, rule="c17.calendar"):
+    """"the periods of a year add up to 365 days, the runs of a week to 7": the lists of (schedule, count) pairs the converter builds are complete when they
+    are built - anything that shortens them afterwards (dedup*, retain, truncate, pop, drain on a list of the schedule conversion) drops days"""
+    f = prog.find("bemodel::convert::from_ctehexml::schedules_from_bdl")
+    SHORTEN = ("dedup", "dedup_by", "dedup_by_key", "retain", "retain_mut", "truncate", "pop", "drain", "remove", "swap_remove", "clear")
+    hits = []
+    for sc in Scope(prog, f).all_scopes():
+        for b, t in sc.body.calls():
+            nm = callee_name(t) or ""
+            if short_callee(nm) in SHORTEN and "vec::Vec" in nm:
+                hits.append((short_callee(nm), sc.fn.loc(t.get("ln"))))
+    key = rule + "|period-lists-kept"
+    if hits:
+        ctx.violation(rule, key, "the schedule conversion shortens a list it has built (%s): periods or runs that repeat a schedule are merged away together with their days, so a "
+                      "year no longer adds up to 365 days" % ", ".join(sorted({h[0] for h in hits})), hits[0][1])
+    else:
+        ctx.ok(rule, key, "no list of the schedule conversion is shortened after it is built", f.loc())
+
+
+def check_every_day_counted(ctx, prog, rule="c17.occupancy"):
+    """"hours in use ... over the days of the year": the day index runs over 0..year_len, the positions of the expanded calendars.  A range that starts at 1, or
+    an inclusive one, skips 1 January (and `get()` hides the index past the end)."""
+    ep = prog.method("energy::props::EnergyProps", "convert::From", "from")
+    sc = Scope(prog, ep)
+    found = []
+    ylocals = [l for l, nm in ep.body.names.items() if nm == "year_len"]
+    if not ylocals:
+        raise AnalysisError("EnergyProps::from: no local called year_len (the number of days of the expanded calendars)")
+    yshow = {show(strip(sc.local(l))) for l in ylocals}
+
+    def is_year_len(x):
+        return show(strip(x)) in yshow or (leaf_name(strip(x)) or "") == "year_len"
+    for b, i, st in ep.body.statements():
+        if st["s"] == "assign" and st["rv"]["r"] == "agg" and ("ops::Range" in (st["rv"].get("adt") or "")):
+            n = strip(sc.rvalue(st["rv"]))
+            if any(is_year_len(x) for x in n[3]):
+                found.append((st["rv"].get("adt"), n, st.get("ln")))
+    for b, t in ep.body.calls():
+        if "RangeInclusive" in (callee_name(t) or "") and short_callee(callee_name(t) or "") == "new" and any(is_year_len(sc.operand(a)) for a in t["args"]):
+            found.append(("RangeInclusive", ("agg", "RangeInclusive", ("start", "end"), tuple(strip(sc.operand(a)) for a in t["args"])), t.get("ln")))
+    if not found:
+        raise AnalysisError("EnergyProps::from: the range of day indexes over year_len was not found")
+    key = rule + "|day-range"
+    bad = []
+    for adt, n, ln in found:
+        start = strip(n[3][0])
+        incl = "Inclusive" in adt
+        if incl or not (start[0] == "k" and str(start[1]).split("_")[0] in ("0", "0usize")):
+            bad.append(("%s%s%s" % (show(start)[:10], "..=" if incl else "..", "year_len"), ln))
+    if bad:
+        ctx.violation(rule, key, "the day index of the occupied-hours count runs over %s: day 0 (1 January) is never counted and the index past the last day is silently "
+                      "ignored by get()" % bad[0][0], ep.loc(bad[0][1]))
+    else:
+        ctx.ok(rule, key, "the day index runs over 0..year_len", ep.loc(found[0][2]))
+
+
 def run(ctx):
     prog = ctx.prog
     md = const_array_numbers(prog, "climate::MONTH_DAYS")
     ctx.require(md is not None and len(md) == 12 and sum(md) == 365, "climate::MONTH_DAYS not readable or not a 365-day year")
+    check_period_lists_kept(ctx, prog)
+    check_every_day_counted(ctx, prog)
     # ---------------- schedules_from_bdl dispatch
     sf = prog.find("bemodel::convert::from_ctehexml::schedules_from_bdl")
     root = Scope(prog, sf)
